@@ -16,7 +16,7 @@ TRUSTED = [
     "hand model core/DagWalk.v of pysmt/walkers/dag.py (loop, stack, memo, early hit, one-shot clearing), tied by correspondence: callback invocation ORDER, number of loop iterations, final stack and memo domain are compared on every case of this run",
     "harness/walktap.py: counting wrappers shadowing walker.functions / measure_to_fun and the two loop methods on the instance; export of the traversal DAG through the walker's own _get_children/_get_key",
     "recursion-freedom is a fact about CPython frames: decided by running the implementation under the default recursion limit (1000) on chains deeper than the limit, not by the model",
-    "wall-clock time is not an observable of this check (several callbacks do O(size) work per node: frozenset-valued size measures, flattening of n-ary sums); only callback counts, loop iterations and RecursionError are",
+    "work inside callbacks is observed as the number of structural accesses to FNodes (node_type/args/arg shadowed on the class while an operation runs on a sharing family or ladder) with a growth test between two sizes (allowed factor 3*(n2/n1)^2); wall-clock time itself is not an observable (several callbacks do O(size) work per node on CHAINS: frozenset-valued size measures, flattening of n-ary sums)",
 ]
 ASSUMPTIONS = [
     "the walker object is clean (no earlier call raised): see C15 for what happens otherwise",
@@ -77,9 +77,206 @@ def _families():
     return F
 
 
-def build(env, fam, mode, n):
-    """mode 'chain': nesting depth n; mode 'shared': x_{i+1} = op(x_i, x_i), tree size 2^n."""
+class AccessCounter(object):
+    """Counts the structural accesses to FNodes (node_type()/args()/arg(); every is_* test goes
+    through node_type()) made while an operation runs: the work done INSIDE the callbacks, which
+    the callback counters cannot see.  The three methods are shadowed on the class for the
+    duration of the measurement only (in this process; nothing in /repo is touched)."""
+
+    NAMES = ("node_type", "args", "arg")
+
+    def __init__(self):
+        self.n = 0
+
+    def __enter__(self):
+        from pysmt.fnode import FNode
+        self.cls = FNode
+        self.orig = dict((k, FNode.__dict__[k]) for k in self.NAMES)
+        me = self
+        o_nt, o_args, o_arg = self.orig["node_type"], self.orig["args"], self.orig["arg"]
+
+        def node_type(s):
+            me.n += 1
+            return o_nt(s)
+
+        def args(s):
+            me.n += 1
+            return o_args(s)
+
+        def arg(s, i):
+            me.n += 1
+            return o_arg(s, i)
+        FNode.node_type, FNode.args, FNode.arg = node_type, args, arg
+        return self
+
+    def __exit__(self, *a):
+        for k, v in self.orig.items():
+            setattr(self.cls, k, v)
+
+
+def _ladders():
+    """Two-chain cross-sharing ladders  L_k = opL(L_{k-1}, M_{k-1}),  M_k = opM(M_{k-1}, L_{k-1}),
+    with constant and with symbol leaves, closed by a comparison with a constant.  2n+O(1)
+    distinct nodes per level pair, tree size 2^n; branches stay distinct after simplification."""
+    from pysmt.typing import BOOL, INT, REAL
+    L = {}
+
+    def add(name, leaves, stepL, stepM, top, blowup_key=None):
+        L[name] = {"leaves": leaves, "stepL": stepL, "stepM": stepM, "top": top, "blowup_key": blowup_key}
+    bv8 = lambda m: m.env.type_manager.BVType(8)
+    P = lambda m, k: m.Symbol("lp%d" % k, BOOL)
+    Q = lambda m, k: m.Symbol("lq%d" % k, BOOL)
+    ite_steps = (lambda m, a, b, k: m.Ite(P(m, k), a, b), lambda m, a, b, k: m.Ite(Q(m, k), a, b))
+    for nm, const, sym, seven, lt in (
+            ("int", lambda m: (m.Int(1), m.Int(2)), lambda m: (m.Symbol("li", INT), m.Symbol("lj", INT)), lambda m: m.Int(7), lambda m, a, b: m.LT(a, b)),
+            ("real", lambda m: (m.Real(1), m.Real(2)), lambda m: (m.Symbol("lr", REAL), m.Symbol("ls", REAL)), lambda m: m.Real(7), lambda m, a, b: m.LT(a, b)),
+            ("bv", lambda m: (m.BV(1, 8), m.BV(2, 8)), lambda m: (m.Symbol("lv", bv8(m)), m.Symbol("lw", bv8(m))), lambda m: m.BV(7, 8), lambda m, a, b: m.BVULT(a, b))):
+        for lk, leaves in (("const", const), ("sym", sym)):
+            add("ite_cross_%s_%s_eq" % (nm, lk), leaves, ite_steps[0], ite_steps[1], (lambda seven: lambda m, a, b: m.Equals(a, seven(m)))(seven))
+            add("ite_cross_%s_%s_lt" % (nm, lk), leaves, ite_steps[0], ite_steps[1], (lambda seven, lt: lambda m, a, b: lt(m, a, seven(m)))(seven, lt))
+        add("ite_cross_%s_mixed_eq" % nm, (lambda const, sym: lambda m: (const(m)[0], sym(m)[0]))(const, sym), ite_steps[0], ite_steps[1],
+            (lambda seven: lambda m, a, b: m.Equals(a, seven(m)))(seven))
+    add("ite_cross_bool_const", lambda m: (m.TRUE(), m.FALSE()), ite_steps[0], ite_steps[1], lambda m, a, b: m.Iff(a, b))
+    add("ite_cross_bool_sym", lambda m: (m.Symbol("lx", BOOL), m.Symbol("ly", BOOL)), ite_steps[0], ite_steps[1], lambda m, a, b: m.Iff(a, b))
+    ao = (lambda m, a, b, k: m.And(m.Or(a, P(m, k)), b), lambda m, a, b, k: m.Or(m.And(a, Q(m, k)), b))
+    add("andor_cross_const", lambda m: (m.TRUE(), m.FALSE()), ao[0], ao[1], lambda m, a, b: m.Implies(a, b))
+    add("andor_cross_sym", lambda m: (m.Symbol("lx", BOOL), m.Symbol("ly", BOOL)), ao[0], ao[1], lambda m, a, b: m.Implies(a, b))
+    pl = (lambda m, a, b, k: m.Plus(a, b), lambda m, a, b, k: m.Plus(a, b, m.Int(1)))
+    add("plus_cross_const", lambda m: (m.Int(1), m.Int(2)), pl[0], pl[1], lambda m, a, b: m.Equals(a, m.Int(7)))
+    add("plus_cross_sym", lambda m: (m.Symbol("li", INT), m.Symbol("lj", INT)), pl[0], pl[1], lambda m, a, b: m.Equals(a, m.Int(7)),
+        blowup_key="blowup:simplify:plus:shared")
+    tm_ = (lambda m, a, b, k: m.Times(a, b), lambda m, a, b, k: m.Times(a, b, m.Int(3)))
+    add("times_cross_const", lambda m: (m.Int(1), m.Int(2)), tm_[0], tm_[1], lambda m, a, b: m.Equals(a, m.Int(7)))
+    add("times_cross_sym", lambda m: (m.Symbol("li", INT), m.Symbol("lj", INT)), tm_[0], tm_[1], lambda m, a, b: m.Equals(a, m.Int(7)),
+        blowup_key="blowup:simplify:times:shared")
+    bvs = (lambda m, a, b, k: m.BVAdd(a, b), lambda m, a, b, k: m.BVXor(a, b))
+    add("bv_cross_const", lambda m: (m.BV(1, 8), m.BV(2, 8)), bvs[0], bvs[1], lambda m, a, b: m.BVULT(a, m.BV(7, 8)))
+    add("bv_cross_sym", lambda m: (m.Symbol("lv", bv8(m)), m.Symbol("lw", bv8(m))), bvs[0], bvs[1], lambda m, a, b: m.Equals(a, m.BV(7, 8)))
+    arr = lambda m: m.env.type_manager.ArrayType(INT, INT)
+    st = (lambda m, a, b, k: m.Store(a, m.Int(k), m.Select(b, m.Int(0))), lambda m, a, b, k: m.Store(a, m.Int(0), m.Select(b, m.Int(k))))
+    add("store_cross", lambda m: (m.Symbol("la", arr(m)), m.Symbol("lb", arr(m))), st[0], st[1], lambda m, a, b: m.Equals(m.Select(a, m.Int(1)), m.Int(7)))
+    return L
+
+
+def build_ladder(env, lad, n):
     m = env.formula_manager
+    a, b = lad["leaves"](m)
+    for k in range(n):
+        a, b = lad["stepL"](m, a, b, k), lad["stepM"](m, b, a, k)
+    return lad["top"](m, a, b)
+
+
+def _position_ops():
+    """(name, sort in, sort out, fn(m, x, k)): one operator through one argument position."""
+    from pysmt.typing import BOOL, INT, REAL
+    T = {"bv": lambda m: m.env.type_manager.BVType(8), "bv16": lambda m: m.env.type_manager.BVType(16),
+         "arr": lambda m: m.env.type_manager.ArrayType(m.env.type_manager.BVType(8), m.env.type_manager.BVType(8)),
+         "arri": lambda m: m.env.type_manager.ArrayType(INT, INT), "int": lambda m: INT, "real": lambda m: REAL, "bool": lambda m: BOOL}
+    S = lambda m, nm, t: m.Symbol("t_" + nm, T[t](m))
+    ops = []
+
+    def add(name, i, o, fn):
+        ops.append((name, i, o, fn))
+    for el, ar in (("bv", "arr"), ("int", "arri")):
+        add("select[array]", ar, el, lambda m, x, k, el=el: m.Select(x, S(m, "j" + el, el)))
+        add("select[index]", el, el, lambda m, x, k, el=el, ar=ar: m.Select(S(m, "A" + ar, ar), x))
+        add("store[array]", ar, ar, lambda m, x, k, el=el: m.Store(x, S(m, "i" + el, el), S(m, "v" + el, el)))
+        add("store[value]", el, ar, lambda m, x, k, el=el, ar=ar: m.Store(S(m, "A" + ar, ar), S(m, "i" + el, el), x))
+        add("store[index]", el, ar, lambda m, x, k, el=el, ar=ar: m.Store(S(m, "A" + ar, ar), x, S(m, "v" + el, el)))
+    for t in ("bv", "arr", "int", "real", "arri", "bool", "bv16"):
+        add("ite[then]", t, t, lambda m, x, k, t=t: m.Ite(S(m, "c", "bool"), x, S(m, "e" + t, t)))
+        add("ite[else]", t, t, lambda m, x, k, t=t: m.Ite(S(m, "c", "bool"), S(m, "e" + t, t), x))
+    for t in ("bv", "arr", "int"):
+        add("fapp", t, t, lambda m, x, k, t=t: m.Function(m.Symbol("t_f" + t, m.env.type_manager.FunctionType(T[t](m), [T[t](m)])), [x]))
+    add("bvadd", "bv", "bv", lambda m, x, k: m.BVAdd(x, S(m, "b", "bv")))
+    add("bvconcat", "bv", "bv16", lambda m, x, k: m.BVConcat(x, S(m, "b", "bv")))
+    add("bvzext", "bv", "bv16", lambda m, x, k: m.BVZExt(x, 8))
+    add("bvextract", "bv16", "bv", lambda m, x, k: m.BVExtract(x, 0, 7))
+    add("plus", "int", "int", lambda m, x, k: m.Plus(x, S(m, "n", "int")))
+    add("plus", "real", "real", lambda m, x, k: m.Plus(x, S(m, "r", "real")))
+    add("times", "int", "int", lambda m, x, k: m.Times(x, m.Int(3)))
+    add("toreal", "int", "real", lambda m, x, k: m.ToReal(x))
+    add("lt", "real", "bool", lambda m, x, k: m.LT(x, S(m, "r", "real")))
+    add("lt", "int", "bool", lambda m, x, k: m.LT(x, S(m, "n", "int")))
+    add("equals", "bv", "bool", lambda m, x, k: m.Equals(x, S(m, "b", "bv")))
+    add("equals", "arr", "bool", lambda m, x, k: m.Equals(x, S(m, "Aarr", "arr")))
+    for t in ("bv", "int", "real", "arr"):
+        add("ite[cond]", "bool", t, lambda m, x, k, t=t: m.Ite(x, S(m, "e" + t, t), S(m, "g" + t, t)))
+    add("not", "bool", "bool", lambda m, x, k: m.Not(x))
+    add("and", "bool", "bool", lambda m, x, k: m.And(x, S(m, "c", "bool")))
+    return T, ops
+
+
+def _towers():
+    """Alternating towers: every ordered pair (and a few triples) of operator positions that
+    alternates well-typed:  x_{k+1} = op1(op2(x_k))."""
+    T, ops = _position_ops()
+    tw = {}
+
+    def mk(seq):
+        base = seq[-1][1]            # the innermost operator's input sort
+        name = " o ".join("%s:%s" % (o[0], o[1]) for o in seq)
+
+        def chain(m, x, l, seq=seq):
+            for o in reversed(seq):
+                x = o[3](m, x, 0)
+            return x
+        tw[name] = {"sort": T[base], "leaf": (lambda m, i, base=base: m.Symbol("t_x" + base, T[base](m))), "chain": chain,
+                    "shared": None, "period": len(seq), "top_sort": base}
+    for o1 in ops:
+        for o2 in ops:
+            if o2[2] == o1[1] and o1[2] == o2[1] and o1 is not o2:
+                mk([o1, o2])
+    byname = dict(((o[0], o[1]), o) for o in ops)
+    for names in ((("ite[cond]", "bool"), ("lt", "real"), ("toreal", "int")),
+                  (("select[array]", "arr"), ("store[value]", "bv"), ("bvadd", "bv")),
+                  (("select[array]", "arr"), ("ite[then]", "arr"), ("store[value]", "bv")),
+                  (("bvextract", "bv16"), ("ite[then]", "bv16"), ("bvconcat", "bv")),
+                  (("select[array]", "arri"), ("store[value]", "int"), ("plus", "int")),
+                  (("fapp", "bv"), ("select[array]", "arr"), ("store[index]", "bv"))):
+        seq = [byname[n] for n in names]
+        if seq[0][1] == "bool" and names[0][0] == "ite[cond]":
+            seq[0] = [o for o in ops if o[0] == "ite[cond]" and o[2] == seq[-1][1]][0]
+        mk(seq)
+    return tw
+
+
+def tower_tops(env, x, sort):
+    """Constructors and accessors applied on top of a tower of the given sort."""
+    m = env.formula_manager
+    tm = env.type_manager
+    from pysmt.typing import BOOL
+    c = m.Symbol("t_c", BOOL)
+    if sort in ("bv", "bv16"):
+        return [("bv_width", lambda: x.bv_width()), ("get_type", lambda: x.get_type()), ("BVNot", lambda: m.BVNot(x)), ("BVNeg", lambda: m.BVNeg(x)),
+                ("BVAdd", lambda: m.BVAdd(x, x)), ("BVMul", lambda: m.BVMul(x, x)), ("BVExtract", lambda: m.BVExtract(x, 0, 3)), ("BVZExt", lambda: m.BVZExt(x, 5)),
+                ("BVSExt", lambda: m.BVSExt(x, 5)), ("BVConcat", lambda: m.BVConcat(x, x)), ("BVULT", lambda: m.BVULT(x, x)), ("BVLShl", lambda: m.BVLShl(x, x)),
+                ("BVRol", lambda: m.BVRol(x, 1)), ("Equals", lambda: m.Equals(x, x)), ("BVNot(Ite)", lambda: m.BVNot(m.Ite(c, x, x))),
+                ("BVToNatural", lambda: m.BVToNatural(x)), ("simplify(BVNot)", lambda: env.simplifier.simplify(m.BVNot(x)))]
+    if sort in ("arr", "arri"):
+        idx = m.Symbol("t_top_i", x.get_type().index_type)
+        el = m.Symbol("t_top_e", x.get_type().elem_type)
+        tops = [("get_type", lambda: x.get_type()), ("Select", lambda: m.Select(x, idx)), ("Store", lambda: m.Store(x, idx, el)), ("Equals", lambda: m.Equals(x, x)),
+                ("Ite", lambda: m.Ite(c, x, x))]
+        if sort == "arr":
+            tops += [("BVNot(Select)", lambda: m.BVNot(m.Select(x, idx))), ("BVAdd(Select)", lambda: m.BVAdd(m.Select(x, idx), el)),
+                     ("bv_width(Select)", lambda: m.Select(x, idx).bv_width()), ("BVExtract(Select)", lambda: m.BVExtract(m.Select(x, idx), 0, 3))]
+        else:
+            tops += [("Plus(Select)", lambda: m.Plus(m.Select(x, idx), el))]
+        return tops
+    if sort in ("int", "real"):
+        return [("get_type", lambda: x.get_type()), ("Plus", lambda: m.Plus(x, x)), ("Times", lambda: m.Times(x, x)), ("Minus", lambda: m.Minus(x, x)),
+                ("LT", lambda: m.LT(x, x)), ("Equals", lambda: m.Equals(x, x)), ("Ite", lambda: m.Ite(c, x, x))] + \
+               ([("ToReal", lambda: m.ToReal(x))] if sort == "int" else [("Div", lambda: m.Div(x, m.Real(2)))])
+    return [("get_type", lambda: x.get_type()), ("Not", lambda: m.Not(x)), ("And", lambda: m.And(x, c)), ("Iff", lambda: m.Iff(x, c)), ("Ite", lambda: m.Ite(x, c, x))]
+
+
+def build(env, fam, mode, n):
+    """mode 'chain': nesting depth n; mode 'shared': x_{i+1} = op(x_i, x_i), tree size 2^n;
+    mode 'ladder': two-chain cross-sharing ladder of n levels."""
+    m = env.formula_manager
+    if mode == "ladder":
+        return build_ladder(env, fam, n)
     x = fam["leaf"](m, 0)
     if mode == "chain":
         step, leaf = fam["chain"], fam["leaf"]
@@ -96,6 +293,8 @@ def build(env, fam, mode, n):
 
 def boolify(env, fam, f):
     m = env.formula_manager
+    if "leaves" in fam:          # ladders are closed by a comparison already
+        return f
     if fam["sort"](m).is_bool_type():
         return f
     return m.Equals(f, fam["leaf"](m, 0))
@@ -215,6 +414,8 @@ class _Alarm(object):
 class Runner(object):
     def __init__(self, tier):
         self.blown = set()
+        self.acc = {}         # (op, family, mode, n) -> structural accesses to FNodes during the operation
+        self.blowup_keys = {}  # family -> key of the known simplifier blow-up it is an instance of
         self.viol = []        # (replay dict, key)
         self.counts = []
         self.meta_disagree = []
@@ -259,7 +460,12 @@ class Runner(object):
                         w.walk(mid)
                         walks.append((mid, list(tap.log), tap.pops))
                         tap.reset()
-                    res = call(w, env, g)
+                    if mode in ("shared", "ladder") and n <= 24:
+                        with AccessCounter() as ac:
+                            res = call(w, env, g)
+                        self.acc[(opname, famname, mode, n)] = ac.n
+                    else:
+                        res = call(w, env, g)
             finally:
                 pe.pop_env()
         except RecursionError:
@@ -298,7 +504,7 @@ class Runner(object):
                             % (opname, famname, mode, n, calls, len(set(all_log))), "repro": replay},
                            key="dup:%s:%s:%s" % (opname, famname, mode))
         # size of the produced formula: linear in the input DAG, not in its tree expansion
-        if hasattr(res, "node_id") and mode == "shared":
+        if hasattr(res, "node_id") and mode in ("shared", "ladder"):
             rn, re_ = dag_size(res)
             if rn + re_ > 16 * (distinct + edges) + 64:
                 self.blown.add((opname, famname, mode))
@@ -306,7 +512,8 @@ class Runner(object):
                                 "sub-formulas (family %s: x_(i+1) = op(x_i, x_i), n = %d): the work follows the tree expansion 2^n, not the DAG"
                                 % (opname, rn, re_, distinct, famname, n), "repro": replay,
                                 "expected": "result DAG size linear in the input DAG size", "observed": [rn, re_]},
-                               key="blowup:%s:%s:%s" % (opname, famname, mode))
+                               key=self.blowup_keys.get(famname) if (opname == "simplify" and self.blowup_keys.get(famname))
+                               else "blowup:%s:%s:%s" % (opname, famname, mode))
         disagreement = None
         if calls != len(table):
             disagreement = "callback count %d differs from the theorem's count %d (distinct reachable keys)" % (calls, len(table))
@@ -444,19 +651,19 @@ class Runner(object):
             self.skip("parse of %s: round trip not identical (C09)" % famname)
 
 
-def measure_family(R, famname, fam, mode, n, ops, model, budget_end, only_fast=False, fast_ops=None):
+def measure_family(R, famname, fam, mode, n, ops, model, budget_end, only_fast=False, fast_ops=None, light=False):
     """The cyclic garbage collector is switched off while a deep chain is measured: its full
     passes over millions of live tuples dominate the time otherwise (nothing here is cyclic)."""
     import gc
     if n >= 20000:
         gc.disable()
     try:
-        return _measure_family(R, famname, fam, mode, n, ops, model, budget_end, only_fast, fast_ops)
+        return _measure_family(R, famname, fam, mode, n, ops, model, budget_end, only_fast, fast_ops, light)
     finally:
         gc.enable()
 
 
-def _measure_family(R, famname, fam, mode, n, ops, model, budget_end, only_fast=False, fast_ops=None):
+def _measure_family(R, famname, fam, mode, n, ops, model, budget_end, only_fast=False, fast_ops=None, light=False):
     from pysmt.environment import Environment
     env = Environment()
     g = R.build_tapped(env, fam, famname, mode, n, model=model)
@@ -484,6 +691,8 @@ def _measure_family(R, famname, fam, mode, n, ops, model, budget_end, only_fast=
             times[op[0]] = r["time"]
             if op[0] == "dagprint":
                 text = r["result"]
+    if light:
+        return times
     try:
         with _Alarm(60):
             if text is not None and time.time() <= budget_end:
@@ -509,6 +718,95 @@ def _measure_family(R, famname, fam, mode, n, ops, model, budget_end, only_fast=
     return times
 
 
+def growth_check(R, famname, mode, n1, n2, opnames):
+    """Work inside the callbacks: structural accesses at size n2 against size n1.  Linear work
+    doubles when the ladder doubles, quadratic quadruples; work that follows the tree expansion
+    grows by 2^(n2-n1).  Allowed: 3 * (n2/n1)^2 times the smaller measurement, plus slack."""
+    for opname in opnames:
+        a1, a2 = R.acc.get((opname, famname, mode, n1)), R.acc.get((opname, famname, mode, n2))
+        if a1 is None or a2 is None or (opname, famname, mode) in R.blown:
+            continue
+        R.counts.append(("inner-work", opname, famname, mode, n1, n2))
+        allowed = 3.0 * (float(n2) / n1) ** 2 * a1 + 4000
+        if a2 > allowed:
+            R.violation({"kind": "input", "what": "%s does work that is not linear in the DAG on family %s: %d structural accesses to nodes at %s(%d) but %d at %s(%d) "
+                         "(the DAG has only grown by the factor %.1f; callbacks are still invoked once per node: the work is INSIDE a callback or helper)"
+                         % (opname, famname, a1, mode, n1, a2, mode, n2, float(n2) / n1),
+                         "repro": "harness.c20.replay_one(%r, %r, %d, %r)" % (famname, mode, n2, opname),
+                         "expected": "<= %d accesses" % allowed, "observed": a2}, key="inner-work:%s:%s" % (opname, famname))
+
+
+def ladder_job(arg):
+    """Cross-sharing ladders with constant / symbol leaves: every operation at two sizes, with
+    the work inside the callbacks measured (runs in a worker process)."""
+    names, tier = arg
+    import warnings
+    warnings.simplefilter("ignore")
+    R = Runner(tier)
+    lads = _ladders()
+    ops = _ops()
+    budget_end = time.time() + (60 if tier == "quick" else 600)
+    sizes = (8, 16) if tier == "quick" else (8, 16, 20)
+    for nm in names:
+        if lads[nm]["blowup_key"]:
+            R.blowup_keys[nm] = lads[nm]["blowup_key"]
+        for n in sizes:
+            measure_family(R, nm, lads[nm], "ladder", n, ops, False, budget_end)
+        for a, b in zip(sizes, sizes[1:]):
+            growth_check(R, nm, "ladder", a, b, [o[0] for o in ops])
+    return {"rows": R.rows, "meta": R.meta, "disagree": R.meta_disagree, "skipped": R.skipped,
+            "depth_hist": R.depth_hist, "counts": R.counts, "viol": R.viol}
+
+
+TOWER_OPS = ("simplify", "substitute", "free_vars", "theory", "size_tree", "dagprint")
+
+
+def tower_job(arg):
+    """Alternating towers deeper than the recursion limit: construction (type check), the fast
+    operations, and every constructor / accessor family applied on top."""
+    names, tier = arg
+    import warnings
+    warnings.simplefilter("ignore")
+    from pysmt.environment import Environment
+    R = Runner(tier)
+    tw = _towers()
+    ops = _ops()
+    budget_end = time.time() + (70 if tier == "quick" else 600)
+    periods = 3000 if tier == "quick" else 10000
+    for nm in names:
+        fam = tw[nm]
+        times = measure_family(R, nm, fam, "chain", 100, ops, False, budget_end, only_fast=True, fast_ops=set(TOWER_OPS), light=True)
+        fast = set(k for k, v in times.items() if v < 0.03)
+        measure_family(R, nm, fam, "chain", periods, ops, False, budget_end, only_fast=True, fast_ops=fast, light=True)
+        if time.time() > budget_end:
+            R.skip("time budget: tops of %s not run" % nm)
+            continue
+        env = Environment()
+        try:
+            x = build(env, fam, "chain", periods)
+        except RecursionError:
+            continue              # reported by the tapped construction above
+        for tname, fn in tower_tops(env, x, fam["top_sort"]):
+            R.counts.append(("top", tname, nm, periods))
+            try:
+                with _Alarm(60):
+                    fn()
+            except RecursionError:
+                tb = sys.exc_info()[2]
+                R.violation({"kind": "input", "what": "RecursionError under the default recursion limit when %s is applied on top of the alternating tower "
+                             "x_(k+1) = %s(x_k), %d periods (%d levels)" % (tname, nm, periods, periods * fam["period"]),
+                             "repro": "harness.c20.replay_one(%r, 'chain', %d, %r)" % (nm, periods, "top:" + tname),
+                             "expected": "width / type accessors and constructors do not recurse over the nesting",
+                             "innermost_frames": [f.name for f in traceback.extract_tb(tb)[-6:]]}, key="recursion:top:%s:%s" % (tname, nm))
+            except WorkExceeded as ex:
+                R.violation({"kind": "input", "what": "%s on top of the tower %s: %s" % (tname, nm, ex),
+                             "repro": "harness.c20.replay_one(%r, 'chain', %d, %r)" % (nm, periods, "top:" + tname)}, key="work:top:%s:%s" % (tname, nm))
+            except Exception as ex:        # noqa: ill-sorted top for this tower etc.
+                R.skip("top %s on %s: %s" % (tname, fam["top_sort"], type(ex).__name__))
+    return {"rows": R.rows, "meta": R.meta, "disagree": R.meta_disagree, "skipped": R.skipped,
+            "depth_hist": R.depth_hist, "counts": R.counts, "viol": R.viol}
+
+
 def family_job(arg):
     """Everything that is measured for one operator family (runs in a worker process)."""
     nm, tier, small_chain, small_shared = arg
@@ -524,6 +822,7 @@ def family_job(arg):
     measure_family(R, nm, fam, "shared", small_shared, ops, True, budget_end)
     # 2. exponential tree size over n DAG nodes (16 first: detects work that follows the tree)
     measure_family(R, nm, fam, "shared", 16, ops, False, budget_end)
+    growth_check(R, nm, "shared", small_shared, 16, [o[0] for o in ops])
     measure_family(R, nm, fam, "shared", 40 if tier == "quick" else 64, ops, False, budget_end)
     # 3. chains deeper than the recursion limit; deeper still for the operations that are fast
     times = measure_family(R, nm, fam, "chain", 1500, ops, False, budget_end)
@@ -571,8 +870,14 @@ def run(tier, only=None):
     small_shared = 7 + rnd.randrange(4)
     from concurrent.futures import ProcessPoolExecutor
     R = Runner(tier)
-    with ProcessPoolExecutor(max_workers=min(lib.NPROC, 12)) as ex:
-        parts = list(ex.map(family_job, [(nm, tier, small_chain, small_shared) for nm in names]))
+    lnames = sorted(_ladders()) if not only else [x for x in sorted(_ladders()) if x in only]
+    tnames = sorted(_towers()) if not only else [x for x in sorted(_towers()) if x in only]
+    nw = lib.NPROC
+    with ProcessPoolExecutor(max_workers=nw) as ex:
+        futs = [ex.submit(family_job, (nm, tier, small_chain, small_shared)) for nm in names]
+        futs += [ex.submit(ladder_job, (lnames[k::6], tier)) for k in range(6) if lnames[k::6]]
+        futs += [ex.submit(tower_job, (tnames[k::24], tier)) for k in range(24) if tnames[k::24]]
+        parts = [f.result() for f in futs]
     for part in parts:
         R.rows += part["rows"]
         R.meta += part["meta"]
@@ -620,6 +925,9 @@ def run(tier, only=None):
     chk.cov["skipped"] = R.skipped
     chk.cov["operations"] = ["typecheck-at-construction", "parse-back"] + [o[0] for o in ops] + ["get_logic"]
     chk.cov["families"] = names
+    chk.cov["ladders"] = {"names": lnames, "sizes": [8, 16] if tier == "quick" else [8, 16, 20],
+                          "measured": "callbacks, loop iterations, result size, and structural accesses to FNodes (node_type/args/arg) with the growth test 3*(n2/n1)^2"}
+    chk.cov["towers"] = {"count": len(tnames), "periods": 3000 if tier == "quick" else 10000, "operations": list(TOWER_OPS), "names": tnames}
     if R.meta:
         chk.sample(R.meta[0])
         chk.sample(R.meta[len(R.meta) // 2])
@@ -641,9 +949,29 @@ def replay_one(famname, mode, n, opname):
     from pysmt.environment import Environment
     import warnings
     warnings.simplefilter("ignore")
-    fams = _families()
+    fams = dict(_families())
+    fams.update(_ladders())
+    fams.update(_towers())
     env = Environment()
     R = Runner("quick")
+    if opname.startswith("top:"):
+        x = build(env, fams[famname], mode, n)
+        for tname, fn in tower_tops(env, x, fams[famname]["top_sort"]):
+            if tname == opname[4:]:
+                try:
+                    fn()
+                    print("ok")
+                    return 0
+                except RecursionError:
+                    print("RecursionError")
+                    return 1
+    if mode in ("shared", "ladder") and n > 8:
+        R.build_tapped(Environment(), fams[famname], famname, mode, n // 2)
+        e0 = Environment()
+        g0 = R.build_tapped(e0, fams[famname], famname, mode, n // 2)
+        for op in _ops():
+            if op[0] == opname:
+                R.run_op(e0, op, famname, mode, n // 2, g0)
     g = R.build_tapped(env, fams[famname], famname, mode, n)
     if g is not None:
         for op in _ops():
@@ -653,6 +981,9 @@ def replay_one(famname, mode, n, opname):
                     print("calls=%d pops=%d keys=%d distinct=%d" % (r["calls"], r["pops"], r["keys"], distinct_subformulas(g)))
                 if op[0] == "dagprint" and r and opname == "parse":
                     R.parse_back(env, famname, mode, n, g, r["result"])
+    if mode in ("shared", "ladder") and n > 8:
+        print("structural accesses:", dict((k[3], v) for k, v in R.acc.items() if k[0] == opname))
+        growth_check(R, famname, mode, n // 2, n, [opname])
     for rep, key in R.viol:
         print("VIOLATION (replayed) key=%s: %s" % (key, rep.get("what")))
     print("violations: %d, disagreements with the theorem's count: %s" % (len(R.viol), R.meta_disagree))
